@@ -119,6 +119,7 @@ type world struct {
 	limit int64 // abstract head size limit (records) given to "new"
 	tlim  int64 // abstract total size limit (records), 0 = off
 	gone  int   // oldest files removed by the total size limit (their entries in disk stay, empty)
+	base  int   // index of the group's first file (see seedBase); disk[i] is file index base+i
 	disk  [][]seg
 	pend  []int
 	recs  map[int]*rec
@@ -135,7 +136,24 @@ func (w *world) path(i int) string {
 	if i == len(w.disk)-1 {
 		return w.head()
 	}
-	return fmt.Sprintf("%s.%03d", w.head(), i)
+	return fmt.Sprintf("%s.%03d", w.head(), w.base+i)
+}
+
+// seedBase makes the file indices of this WAL start at base instead of 0: the specification is
+// about positions, the names wal.000, wal.001, ... are a detail of the realisation -- one that
+// changes width at 1000 (OpenGroup finds the files by a pattern, filePathForIndex prints %03d).
+// An empty file wal.<base-1> put into the directory before the WAL is opened for the first time
+// is all it takes (OpenGroup numbers the head one above the largest index it finds); every reader
+// passes through it.  Not used together with the total size limit, whose loop would count it.
+func (w *world) seedBase(base int) error {
+	if base <= 0 {
+		return nil
+	}
+	w.base = base
+	if err := os.MkdirAll(w.dir(), 0o700); err != nil {
+		return err
+	}
+	return os.WriteFile(fmt.Sprintf("%s.%03d", w.head(), base-1), nil, 0o600)
 }
 
 func (w *world) open() error {
@@ -187,7 +205,10 @@ func (w *world) sync(startRec bool) string {
 		// every numbered file is gone: OpenGroup found the head alone and calls it index 0 again
 		w.disk, w.gone = w.disk[len(w.disk)-1:], 0
 	}
-	nf := g.MaxIndex() + 1
+	nf := g.MaxIndex() + 1 - w.base
+	if nf < 1 {
+		return fmt.Sprintf("the group says its head has index %d, the first file has index %d", g.MaxIndex(), w.base)
+	}
 	for len(w.disk) < nf {
 		w.disk = append(w.disk, nil)
 	}
